@@ -51,6 +51,18 @@ var shimImports = map[string]string{
 	"context":     modPath + "/zzshim/context",
 }
 
+// shimImportsByPkg: substitutions that apply to one repository package only. Package remote gets the contract
+// transport instead of TCP / TLS / DRPC (cluster keeps the real net: it only uses net.SplitHostPort).
+var shimImportsByPkg = map[string]map[string]string{
+	"remote": {
+		"net":                      modPath + "/zzshim/net",
+		"crypto/tls":               modPath + "/zzshim/tls",
+		"storj.io/drpc/drpcconn":   modPath + "/zzshim/drpcconn",
+		"storj.io/drpc/drpcmux":    modPath + "/zzshim/drpcmux",
+		"storj.io/drpc/drpcserver": modPath + "/zzshim/drpcserver",
+	},
+}
+
 // View is a build overlay: virtual path -> content.
 type View struct {
 	Files     map[string][]byte
@@ -132,7 +144,7 @@ func buildView(native bool, harnessPkgs []string) (*View, error) {
 			if err != nil {
 				return nil, err
 			}
-			out, changed, err := substituteImports(n, src)
+			out, changed, err := substituteImports(pk, n, src)
 			if err != nil {
 				return nil, fmt.Errorf("%s: %v", p, err)
 			}
@@ -180,7 +192,7 @@ func withHarnessDeps(pkgs []string) []string {
 
 // substituteImports replaces import path literals in place (line numbers are
 // preserved).
-func substituteImports(name string, src []byte) ([]byte, bool, error) {
+func substituteImports(pkg, name string, src []byte) ([]byte, bool, error) {
 	fset := token.NewFileSet()
 	f, err := parser.ParseFile(fset, name, src, parser.ImportsOnly)
 	if err != nil {
@@ -193,7 +205,11 @@ func substituteImports(name string, src []byte) ([]byte, bool, error) {
 	var edits []edit
 	for _, im := range f.Imports {
 		path := strings.Trim(im.Path.Value, "\"`")
-		if to, ok := shimImports[path]; ok {
+		to, ok := shimImports[path]
+		if t2, ok2 := shimImportsByPkg[pkg][path]; ok2 {
+			to, ok = t2, true
+		}
+		if ok {
 			edits = append(edits, edit{fset.Position(im.Path.Pos()).Offset, fset.Position(im.Path.End()).Offset, `"` + to + `"`})
 		}
 	}
@@ -497,6 +513,7 @@ func loadWorld(v *View, pkgDirs []string) (*World, error) {
 		"math/bits": true, "slices": true, "maps": true, "cmp": true, "golang.org/x/exp/maps": true,
 		"golang.org/x/exp/slices": true, "unicode/utf8": true, "sort": true, "math": true, "time": true,
 		"internal/stringslite": true, "strings": true, "bytes": true, "io": true, "errors": true,
+		"github.com/planetscale/vtprotobuf/codec/drpc": true, // Marshal/Unmarshal = the message's own MarshalVT/UnmarshalVT
 	}
 	rt := prog.ImportedPackage("runtime")
 	if rt != nil {
